@@ -450,6 +450,10 @@ func (e *refEnv) call(n *node, a []val) (val, bool) {
 		}
 		i, ok := a[1].intIn(1, int64(len(w))) // out of range: legacy "" but word() is an error
 		if !ok {
+			// a negative number counts from the end (legacy_tests.json: WORD("abc-def  ghi  jkl", -1) is "jkl")
+			if i, ok = a[1].intIn(-int64(len(w)), -1); ok {
+				return val{t: tT, s: w[len(w)+i]}, true
+			}
 			return bad, false
 		}
 		return val{t: tT, s: w[i-1]}, true
@@ -462,13 +466,13 @@ func (e *refEnv) call(n *node, a []val) (val, bool) {
 		if !ok {
 			return bad, false
 		}
-		start, ok := a[1].intIn(1, 50)
+		start, ok := a[1].intIn(1, 1000)
 		if !ok {
 			return bad, false
 		}
 		stop := len(w) + 1
 		if len(a) >= 3 {
-			st, ok := a[2].intIn(int64(start)+1, 50) // 0 / negative stops behave differently
+			st, ok := a[2].intIn(int64(start)+1, 2147483647) // 0 / negative stops behave differently; a stop past the end is the end
 			if !ok {
 				return bad, false
 			}
@@ -516,7 +520,7 @@ func (e *refEnv) call(n *node, a []val) (val, bool) {
 				return bad, false
 			}
 		}
-		i, ok := a[1].intIn(1, int64(len(fs))+2)
+		i, ok := a[1].intIn(1, 1000000) // past the last field: empty
 		if !ok {
 			return bad, false
 		}
@@ -574,8 +578,8 @@ func (e *refEnv) call(n *node, a []val) (val, bool) {
 		if !ok || len(a) != 2 {
 			return bad, false
 		}
-		c, ok := a[1].intIn(0, 6)
-		if !ok {
+		c, ok := a[1].intIn(0, 12)
+		if !ok || len(s)*c > 60 {
 			return bad, false
 		}
 		return val{t: tT, s: strings.Repeat(s, c)}, true
